@@ -96,6 +96,9 @@ type boundAnalysis struct {
 	extraRawCall func(c *ssa.Call) bool
 	reports      []sinkReport
 	rawOrigin    map[ssa.Value]string
+	// assembled: integers put together by hand from the bytes of a slice; sources like a decode call, not arithmetic
+	// over (harmless) single bytes
+	assembled map[ssa.Value]bool
 }
 
 func newBoundAnalysis(p *Program, scope map[*ssa.Function]bool) *boundAnalysis {
@@ -293,6 +296,16 @@ func (ba *boundAnalysis) rawValues(fn *ssa.Function) map[ssa.Value]*rawInfo {
 				case *ssa.ChangeType:
 					merge(v, raw[x.X], "")
 				case *ssa.BinOp:
+					// an integer assembled by hand from the bytes of a slice (uint32(b[0]) | uint32(b[1])<<8 ...) is decoded input
+					if (x.Op == token.OR || x.Op == token.SHL) && isIntegerType(x.Type()) && (byteOfSlice(x.X) || byteOfSlice(x.Y)) {
+						if bw, _, ok := intWidth(x.Type()); ok && bw > 8 {
+							intrinsic(x, "assembled from the bytes of a slice at "+ba.p.pos(x.Pos()))
+							if ba.assembled == nil {
+								ba.assembled = map[ssa.Value]bool{}
+							}
+							ba.assembled[x] = true
+						}
+					}
 					switch x.Op {
 					case token.ADD, token.SUB, token.MUL, token.QUO, token.SHL, token.SHR, token.OR, token.XOR:
 						merge(v, raw[x.X], "")
@@ -362,6 +375,9 @@ func (s *fnState) bounded(v ssa.Value, G valSet, depth int) bool {
 	}
 	if G[v] {
 		return true
+	}
+	if s.ba != nil && s.ba.assembled[v] {
+		return false
 	}
 	switch x := v.(type) {
 	case *ssa.Convert:
@@ -1011,4 +1027,21 @@ func (ba *boundAnalysis) rawSignature() string {
 	}
 	sort.Strings(parts)
 	return strings.Join(parts, ";")
+}
+
+// byteOfSlice: (a widening conversion of) an element of a []byte.
+func byteOfSlice(v ssa.Value) bool {
+	for {
+		c, ok := v.(*ssa.Convert)
+		if !ok {
+			break
+		}
+		v = c.X
+	}
+	u, ok := v.(*ssa.UnOp)
+	if !ok || u.Op != token.MUL {
+		return false
+	}
+	ia, ok := u.X.(*ssa.IndexAddr)
+	return ok && isByteSlice(ia.X.Type())
 }
